@@ -249,7 +249,7 @@ def run(ctx):
         ctx.count(("T", c["v"]), True)
     # ---- growth beyond C17: the knee-ranking heuristics built on these primitives (notes only)
     from harness import growth
-    growth.ranking(ctx)
+    growth.safe(ctx, growth.ranking)
 
 
 def replay(ctx, obj):
